@@ -125,13 +125,35 @@ func generateAll(repo string, want func(c *FuncContract) bool) (*genResult, erro
 	return gr, nil
 }
 
-func (o *Obligation) script() string {
+func (o *Obligation) script() string { return o.scriptWith("", -1) }
+
+// scriptWith builds the query. Only assertions of blocks from which the obligation's
+// block can be reached are included (the others are guarded by blocks not on any
+// path to it and cannot matter).
+func (o *Obligation) scriptWith(extra Term, viaBlk int) string {
 	if o.lemma != nil {
 		return o.lemma.script
 	}
 	fv := o.fv
-	goal := "(assert " + and(o.Guard, not(o.Goal)) + ")"
-	return fv.e.script(fv.bg, goal, nil)
+	goal := "(assert " + and(o.Guard, extra, not(o.Goal)) + ")"
+	bg := fv.bg
+	if o.Blk >= 0 && fv.fn != nil && os.Getenv("QV_NOSLICE") == "" {
+		rel := fv.ancestors(o.Blk)
+		if viaBlk >= 0 {
+			rel2 := map[int]bool{o.Blk: true}
+			for k := range fv.ancestors(viaBlk) {
+				rel2[k] = true
+			}
+			rel = rel2
+		}
+		bg = nil
+		for i, a := range fv.bg {
+			if rel[fv.bgBlk[i]] {
+				bg = append(bg, a)
+			}
+		}
+	}
+	return fv.e.script(bg, goal, nil)
 }
 
 func hasProp(ps []string, p string) bool {
@@ -159,6 +181,24 @@ func solveAll(obls []*Obligation, tmo, need int, verbose bool) []*oblResult {
 		}
 		scr := o.script()
 		jobs = append(jobs, job{name: o.Name, script: scr, need: need, tmo: tmo, done: func(r *SolveResult) {
+			if r.Status != "unsat" && r.Status != "sat" && len(o.Splits) > 0 {
+				// retry path by path (one query per edge into the obligation's block)
+				all := true
+				var tried []string
+				tot := r.Time
+				for si, sg := range o.Splits {
+					sr := solve(fmt.Sprintf("%s.split%d", o.Name, si), o.scriptWith(sg, o.SplitBlk[si]), tmo, need)
+					tot += sr.Time
+					tried = append(tried, sr.Tried...)
+					if sr.Status != "unsat" {
+						all = false
+						break
+					}
+				}
+				if all {
+					r = &SolveResult{Status: "unsat", Solver: "split", Time: tot, Tried: append(r.Tried, tried...)}
+				}
+			}
 			mu.Lock()
 			results[i] = &oblResult{O: o, R: r, Scr: scr}
 			mu.Unlock()
